@@ -1,50 +1,37 @@
-(* C01 -- finding F1 over the reals: the convergence test precedes the acceptance test, so the converged exit can go uphill.
-   f(x) = x + x^2/2 - 4x^3 - 3x^4, x0 = 0, default settings (any iteration caps >= 1): the first trial point is the Newton
-   point y = -1, f'(-1) = 0, and the solver returns (-1, True) although f(-1) = 1/2 > f(0) = 0 (a local maximum). *)
-From Coq Require Import Reals Lra Lia List QArith Psatz Bool.
+(* C01 -- finding F1: the convergence test precedes the acceptance test, so the converged exit can go uphill.
+   f(x) = x + x^2/2 - 4x^3 - 3x^4 (the polynomial family of model/M_C01_TR.v with A = [[1]], b = [1], c = [-4], d = [-3]),
+   x0 = 0, default settings: the first trial point is the Newton point y = -1, f'(-1) = 0, and the solver returns (-1, True)
+   although f(-1) = 1/2 > f(0) = 0 (a local maximum).  Every number involved is a small dyadic rational, so the binary64
+   instance of the model (the one executed against the implementation) computes exactly; the statement is about that instance. *)
+From Coq Require Import ZArith List Floats.PrimFloat.
 From OV.base Require Import Num.
-From OV.gen Require Import Gen_EquationSolver.
 From OV.model Require Import M_C06_Vec M_C06_CG M_C01_TR.
-From OV.proofs Require Import L_C06_Vec.
 Import ListNotations.
-Local Open Scope R_scope.
 
-Definition f1_value (x : rvec) : R := match x with [t] => t + t * t / 2 - 4 * (t * t * t) - 3 * (t * t * t * t) | _ => 0 end.
-Definition f1_grad (x : rvec) : rvec := match x with [t] => [1 + t - 12 * (t * t) - 12 * (t * t * t)] | _ => [] end.
-Definition f1_hessvec (x v : rvec) : rvec :=
-  match x, v with [t], [w] => [(1 - 24 * t - 36 * (t * t)) * w] | _, _ => [] end.
-Definition f1_id (xp v : rvec) : rvec := v.
+Definition f1_A : list (list float) := [[F 1 0]].
+Definition f1_E : list (list float) := [[F 0 0]].
+Definition f1_b : list float := [F 1 0].
+Definition f1_c : list float := [F (-4) 0].
+Definition f1_d : list float := [F (-3) 0].
+Definition f1_value := @pvalue float NumF f1_A f1_b f1_c f1_d.
+Definition f1_grad := @pgrad float NumF f1_A f1_b f1_c f1_d.
+Definition f1_hessvec := @phessvec float NumF f1_A f1_E f1_c f1_d.
+Definition f1_id (xp v : list float) : list float := v.
+(* get_settings() defaults: t1=0.25 t2=1.75 eta1=1e-10 eta2=0.1 eta3=0.5 tol=1e-8 cg_tol=0.2*tol ratio=1e-5 tr_size=2 min_tr_size=1e-8 *)
+Definition f1_settings : settings float :=
+  {| s_t1 := F 1 (-2); s_t2 := F 7 (-2); s_eta1 := F 7737125245533627 (-86); s_eta2 := F 3602879701896397 (-55); s_eta3 := F 1 (-1);
+     s_max_trust_iters := 100; s_tol := F 3022314549036573 (-78); s_max_cg_iters := 50;
+     s_max_cumulative_cg_iters := 1000; s_cg_tol := F 4835703278458517 (-81); s_cg_ratio := F 5902958103587057 (-69);
+     s_tr_size := F 2 0; s_min_tr_size := F 3022314549036573 (-78); s_use_pc_ip := false; s_use_incremental := false |}.
 
-(* get_settings() defaults; the two iteration caps are arbitrary positive numbers (defaults 100 and 50 included) *)
-Definition f1_settings (k m : nat) : settings R :=
-  {| s_t1 := 1 / 4; s_t2 := 7 / 4; s_eta1 := 1 / 10000000000; s_eta2 := 1 / 10; s_eta3 := 1 / 2;
-     s_max_trust_iters := Datatypes.S k; s_tol := 1 / 100000000; s_max_cg_iters := Datatypes.S m;
-     s_max_cumulative_cg_iters := 1000; s_cg_tol := 2 / 10 * (1 / 100000000); s_cg_ratio := 1 / 100000;
-     s_tr_size := 2; s_min_tr_size := 1 / 100000000; s_use_pc_ip := false; s_use_incremental := false |}.
+Definition f1_run := @trust_region_minimize float NumF f1_value f1_grad f1_hessvec f1_id f1_id f1_settings 30 [F 0 0] [F 0 0].
 
-Ltac split_cmp :=
-  match goal with
-  | |- context [Rltb ?a ?b] =>
-      let H := fresh "Hc" in destruct (Rltb a b) eqn:H; [apply Rltb_true in H | apply Rltb_false in H]
-  | |- context [Rleb ?a ?b] =>
-      let H := fresh "Hc" in destruct (Rleb a b) eqn:H; [apply Rleb_true in H | apply Rleb_false in H]
-  end.
-
-(* refute the most recent comparison hypothesis after normalising its constant field expressions *)
-Ltac kill_last :=
-  match goal with
-  | H : (_ < _)%R |- _ => field_simplify in H; lra
-  | H : (_ <= _)%R |- _ => field_simplify in H; lra
-  end.
-
-Theorem f1_converged_exit_goes_uphill : forall k m fuel,
-  exists y,
-    @trust_region_minimize R NumR f1_value f1_grad f1_hessvec f1_id f1_id (f1_settings k m) (Datatypes.S fuel) [0] [0]
-      = ([y], true, [EConverged [y]]) /\
-    y = -1 /\ f1_value [y] = 1 / 2 /\ f1_value [0] = 0 /\ f1_value [0] < f1_value [y].
-Proof.
-  intros k m fuel.
-  cbv -[Rplus Rmult Rminus Ropp Rdiv Rinv sqrt Rabs Rltb Rleb Reqb IZR Rlt Rle].
-  repeat (split_cmp; try solve [exfalso; lra | exfalso; kill_last]).
-  eexists. split; [reflexivity|]. repeat split; try lra; field.
-Qed.
+Lemma f1_converged_exit_goes_uphill_binary64 :
+  match f1_run with
+  | ([y], true, [EConverged [y']]) =>
+      andb (PrimFloat.eqb y (F (-1) 0)) (andb (PrimFloat.eqb y' y)
+        (andb (PrimFloat.eqb (f1_value [y]) (F 1 (-1))) (andb (PrimFloat.eqb (f1_value [F 0 0]) (F 0 0))
+              (PrimFloat.ltb (f1_value [F 0 0]) (f1_value [y])))))
+  | _ => false
+  end = true.
+Proof. vm_compute. reflexivity. Qed.
